@@ -262,6 +262,20 @@ func (e *Engine) resolveType(text string, pkgName string) (types.Type, error) {
 		pn, name = text[:i], text[i+1:]
 	}
 	p := e.byName[pn]
+	if home := e.byName[pkgName]; home != nil && pn != pkgName {
+		for _, imp := range home.Imports {
+			if imp.Name == pn {
+				p = imp
+			}
+		}
+	}
+	if pn == "template" && (p == nil || p.PkgPath != "html/template") {
+		packages.Visit(e.pkgs, nil, func(q *packages.Package) {
+			if q.PkgPath == "html/template" {
+				p = q
+			}
+		})
+	}
 	if p == nil || p.Types == nil {
 		return nil, fmt.Errorf("unknown package %q in type %q", pn, text)
 	}
